@@ -560,6 +560,17 @@ pub fn gen(out: &mut Out, thorough: bool, seed: u64) {
         run_parse(out, &format!("{}1{}", "{\"k\":".repeat(d), "}".repeat(d)), "probe");
         run_parse(out, &format!("{}{}", "[".repeat(d), "]".repeat(d - 1)), "probe");
     }
+    // wide and shallow: many sibling containers (empty and not) must not count towards the nesting depth
+    for n in [200usize, 255, 256, 257, 300, 1000, 3000] {
+        let empties_a: Vec<&str> = std::iter::repeat("[]").take(n).collect();
+        run_parse(out, &format!("[{}]", empties_a.join(",")), "probe-wide");
+        let empties_o: Vec<String> = (0..n).map(|i| format!("\"k{}\":{{}}", i)).collect();
+        run_parse(out, &format!("{{{}}}", empties_o.join(",")), "probe-wide");
+        let mixed: Vec<String> = (0..n).map(|i| match i % 4 { 0 => "[]".to_string(), 1 => "{}".to_string(), 2 => "[ ]".to_string(), _ => "[1]".to_string() }).collect();
+        run_parse(out, &format!("[{}]", mixed.join(" , ")), "probe-wide");
+        // many empties followed by something deep
+        run_parse(out, &format!("[{},{}1{}]", empties_a[..n.min(150)].join(","), "[".repeat(150), "]".repeat(150)), "probe-wide");
+    }
     // (4) grammar-generated documents and single-edit mutants
     let mut rng = Rng::new(seed);
     let ndocs = if thorough { 400_000 } else { 20_000 };
